@@ -226,11 +226,86 @@ def _scase(draw, t, d, prof):
     return ["scase", t, x, whens, els]
 
 
+NEG_ATOMS = ["col", "lit", "case", "scase", "cast", "fn", "ssq", "cmp", "isn", "collapse_and", "collapse_or", "exists"]
+
+
+@st.composite
+def _negchain(draw, d, prof):
+    """1-4 nested NOTs over one boolean-typed atom of every kind: Boolean column / bound literal, boolean-typed
+    CASE / CAST / function / scalar subquery (all negate through AsBoolean), comparison / IS NULL (negation rewrite),
+    EXISTS, and and_/or_ whose true()/false() members make it collapse to the single remaining atom"""
+    bv = prof.get("bool_values", True)
+    kinds = NEG_ATOMS if bv else ["cmp", "isn", "exists"]
+    if not prof.get("consts", True):
+        kinds = [k for k in kinds if not k.startswith("collapse")]
+    kind = draw(st.sampled_from(kinds))
+    leaf = lambda t: draw(_leaf(t, prof))  # noqa: E731
+    bcol = lambda: ["col", "b", draw(st.sampled_from(COLS["b"]))]  # noqa: E731
+    if kind == "col":
+        atom = bcol()
+    elif kind == "lit":
+        atom = ["lit", "b", draw(st.booleans())]
+    elif kind == "case":
+        atom = ["case", "b", [[["cmp", "b", draw(st.sampled_from(CMPS[:6])), leaf("i"), leaf("i")], bcol()]], bcol() if draw(st.booleans()) else None]
+    elif kind == "scase":
+        atom = ["scase", "b", leaf("i"), [[draw(st.integers(0, 2)), bcol()]], bcol() if draw(st.booleans()) else None]
+    elif kind == "cast":
+        atom = ["cast", "b", bcol()]
+    elif kind == "fn":
+        atom = ["fn", "b", "coalesce", [bcol(), bcol()]]
+    elif kind == "ssq":
+        atom = ["ssq", "b", bcol()]
+    elif kind == "cmp":
+        tt = draw(st.sampled_from(["i", "s", "f"]))
+        left = leaf(tt)
+        atom = ["cmp", "b", draw(st.sampled_from(CMPS)), left, left if draw(st.integers(0, 3)) == 0 else leaf(tt)]
+    elif kind == "isn":
+        atom = ["isn", "b", leaf(draw(st.sampled_from(TYPES[:3]))), draw(st.booleans())]
+    elif kind == "exists":
+        tt = draw(st.sampled_from(["i", "s"]))
+        atom = ["exists", "b", ["cmp", "b", draw(st.sampled_from(CMPS[:6])), leaf(tt), leaf(tt)]]
+    else:
+        inner = bcol() if draw(st.booleans()) else ["fn", "b", "coalesce", [bcol(), bcol()]]
+        members = [["const", "b", kind == "collapse_and"], inner]
+        if draw(st.booleans()):
+            members.reverse()
+        if draw(st.integers(0, 2)) == 0:
+            members.append(["const", "b", kind == "collapse_and"])
+        atom = ["and" if kind == "collapse_and" else "or", "b", members]
+    out = atom
+    for _ in range(draw(st.sampled_from([1, 2, 2, 3, 3, 4]))):
+        out = ["not", "b", out]
+    return out
+
+
+def negchains(tree):
+    """[(depth, base kind)] of every maximal chain of NOT nodes in the tree"""
+    out = []
+
+    def rec(n, parent_is_not):
+        if n[0] == "not" and not parent_is_not:
+            depth, b = 0, n
+            while b[0] == "not":
+                depth += 1
+                b = b[2]
+            kind = b[0]
+            if kind in ("and", "or") and any(c[0] == "const" for c in b[2]):
+                kind = "collapse"
+            out.append((depth, kind))
+        for c in children(n):
+            rec(c, n[0] == "not")
+
+    rec(tree, False)
+    return out
+
+
 @st.composite
 def _bool(draw, d, prof, force=False):
     if d <= 0 or (not force and draw(st.integers(0, 19)) < 3):
         return draw(_leaf("b", prof))
-    k = draw(st.integers(0, 29))
+    k = draw(st.integers(0, 35))
+    if k >= 30:
+        return draw(_negchain(d, prof))
     if prof.get("_rewritable"):
         prof = {kk: v for kk, v in prof.items() if kk != "_rewritable"}
         k = draw(st.sampled_from([0, 1, 2, 3, 16, 18, 20, 22, 24]))
